@@ -1,4 +1,5 @@
 import MitmVerif.Model.C01
+import MitmVerif.Model.C02
 import Driver.Proto
 open MitmVerif Driver MitmVerif.C01
 
@@ -109,6 +110,11 @@ def step (line : String) : String :=
        | .ok (msg, rest) => "ok " ++ showMsg msg ++ " " ++ showBytes rest
        | .error e => showErr e)
     | _, _ => "bad-op"
+  | ["chunkhdr", h] =>
+    -- h11 chunk_header regex (Model/C02.lean `chunkHeader`), on the line without its CR LF
+    match hexOr h with
+    | some l => (match MitmVerif.C02.chunkHeader l with | some n => toString n | none => "err")
+    | none => "bad-op"
   | ["unfold", h] =>
     match hexOr h with
     | some v => showBytes (Ref.unfold v)
